@@ -17,6 +17,7 @@ Section CheckSound.
   Variable path : P -> O -> option res.
   Variable defaults : P.
   Variable base : Z.
+  Variable blocker : O -> bool.
   Variable small : P -> Prop.
   Variable wf : O -> Prop.
   Hypothesis Hdef_valid : validate defaults = Ok.
@@ -25,7 +26,7 @@ Section CheckSound.
     validate p = Ok -> small p -> wf o -> path p o = Some r -> res_outcome r <> Abort.
 
   Notation upd := (update_with validate gx).
-  Notation cops := (check_ops path defaults base).
+  Notation cops := (check_ops path defaults base blocker).
 
   Definition op_of (e : O * Z * O * Z) : O := let '(os, _, _, _) := e in os.
 
@@ -111,7 +112,7 @@ Section CheckSound.
 
   Lemma model_mcase_passes via p ops :
     small p -> Forall wf ops ->
-    check_mcase validate upd path defaults base (model_mcase via p ops) = (-1, -1, 0).
+    check_mcase validate upd path defaults base blocker (model_mcase via p ops) = (-1, -1, 0).
   Proof.
     intros Hs Hwf. unfold check_mcase.
     assert (Hcu : corr_update validate upd defaults (model_mcase via p ops) = true).
@@ -134,8 +135,8 @@ Section CheckSound.
   Theorem check_mcase_sound (c : mcase P O) :
     small (k_params c) ->
     Forall (fun e => wf (op_of e) /\ path (k_after c) (op_of e) <> None) (k_ops c) ->
-    fst (fst (check_mcase validate upd path defaults base c)) = -1 ->
-    snd (fst (check_mcase validate upd path defaults base c)) = -1.
+    fst (fst (check_mcase validate upd path defaults base blocker c)) = -1 ->
+    snd (fst (check_mcase validate upd path defaults base blocker c)) = -1.
   Proof.
     intros Hs Hall Hfin. unfold check_mcase in *.
     destruct (corr_update validate upd defaults c) eqn:Ec.
